@@ -732,6 +732,10 @@ def _extract_constant_impl(expr: Expression) -> float:
                 exp = int(expr.right.value)
                 if exp == 0:
                     return 1.0  # x**0 = 1
+                if exp >= 1:
+                    # linear only if exp == 1 or the base is constant: either
+                    # way the constant term is the base's, to that power
+                    return _extract_constant_impl(expr.left) ** exp
             return 0.0
 
     if isinstance(expr, UnaryOp):
